@@ -257,7 +257,7 @@ impl Src {
         matches!(self.st, St::Enabled | St::Disabled | St::Limbo)
     }
     pub fn is_timer(&self) -> bool {
-        matches!(self.spec.kind, Kind::Timer { .. })
+        matches!(self.spec.kind, Kind::Timer { .. } | Kind::Comp { timer: Some(_), .. })
     }
 }
 
@@ -333,6 +333,8 @@ pub struct World {
     pub signal: Option<calloop::LoopSignal>,
     /// adapters owned by callback closures that have not been dropped yet
     pub owned_fds: Vec<RawFd>,
+    /// fds that outlived the adapter that borrowed them (kept open to the end of the history)
+    pub kept_fds: Vec<OwnedFd>,
     pub owned_cells: Vec<std::rc::Weak<RefCell<Option<OwnedAd>>>>,
 }
 
@@ -405,6 +407,7 @@ impl World {
             prop: String::new(),
             signal: None,
             owned_fds: vec![],
+            kept_fds: vec![],
             owned_cells: vec![],
             live_trace: std::env::var_os("CVERIF_LIVE_TRACE").is_some(),
         }
@@ -456,6 +459,8 @@ impl World {
 /// the loop: the reference cycle is the user's)
 pub struct OwnedAd {
     pub ad: Option<calloop::io::Async<'static, super::zoo::FdX>>,
+    /// the adapter only borrows its fd: the fd outlives it (and must be out of the poller once the adapter is gone)
+    pub keep: Option<std::os::fd::OwnedFd>,
     pub _peer: std::os::fd::OwnedFd,
     pub raw: RawFd,
 }
@@ -464,9 +469,13 @@ impl Drop for OwnedAd {
     fn drop(&mut self) {
         drop(self.ad.take());
         let raw = self.raw;
+        let keep = self.keep.take();
         try_w(|w| {
             w.owned_fds.retain(|f| *f != raw);
             w.count("callback_owned_adapter_dropped");
+            if let Some(fd) = keep {
+                w.kept_fds.push(fd);
+            }
         });
     }
 }
